@@ -142,8 +142,8 @@ CLAIMED["C17"] = dict(
          "yields the concatenated data and the end of body), delivers exactly n bytes for Content-Length n and everything for "
          "close-delimited bodies; the model's hex/extension parser is proved to meet the hypotheses. Tied by translator facts "
          "(ForwardedFacts.v) and by the differential run of the real into_forwarded pair + real DuplexPipe against an independent oracle for "
-         "request serialization, hop-by-hop filtering, interim responses, bodiless statuses and bodies; 48+ exchanges through the real endpoint (Core::listen): real HTTP/2-over-TLS and HTTP/3-over-QUIC clients against a scripted origin on loopback, same oracle; large bodies into a small client window, and a sweep of piece sizes that runs an HTTP/3 stream's window down to its last bytes; theorems response_fields_minus_hop_by_hop (for every field list in any order the fields handed on are exactly the end-to-end ones, in order; Model/HopByHop.v) and origin_request_head_is_well_formed (the request head written to the origin is read back under the RFC 9112 grammar as its fields, the authority first as Host); the origin's fields are shuffled in the exchanges",
-    note="partial: response-head parsing (httparse) is checked by the differential run only; request serialization and the hop-by-hop filter have their own models (Model/Http1Wire.v against the reader Spec/Rfc9112.v, Model/HopByHop.v with ASCII trimming and lower-casing) tied by facts, the encode doors and the shuffled-field exchanges; "
+         "request serialization, hop-by-hop filtering, interim responses, bodiless statuses and bodies; 48+ exchanges through the real endpoint (Core::listen): real HTTP/2-over-TLS and HTTP/3-over-QUIC clients against a scripted origin on loopback, same oracle; large bodies into a small client window, and a sweep of piece sizes that runs an HTTP/3 stream's window down to its last bytes; theorems response_fields_minus_hop_by_hop (for every field list in any order the fields handed on are exactly the end-to-end ones, in order; Model/HopByHop.v) and forwarded_request_head_is_equivalent (whenever serialize_request accepts a request its bytes are read back under the RFC 9112 grammar as the client's method, target and version with the fields minus Proxy-Authorization / Proxy-Connection and the Host field naming the authority; Model/FwdRequest.v, compared byte for byte with the request the origin received); the origin's fields are shuffled in the exchanges",
+    note="partial: response-head parsing (httparse) is checked by the differential run only; request serialization and the hop-by-hop filter have their own models (Model/FwdRequest.v read back by Spec/Rfc9112.v, Model/HopByHop.v with ASCII trimming and lower-casing) tied by facts, the request head the origin received and the shuffled-field exchanges; "
          "httparse::parse_chunk_size is a parameter; known finding h2-request-body-unframed; trusted: Coq kernel, Model/Forwarded.v, "
          "translator facts, extraction + driver, harness door verif::forwarded",
     design="DESIGN.md 5 C17")
@@ -197,7 +197,7 @@ CLAIMED["C18"] = dict(
          "write; nothing outside 1..100 is a download, nothing outside 1..120 MiB an upload, anything else is 400. Tied by translator "
          "facts (select, constants, handler shapes, reverse-proxy destination = settings.server_address through a connect without policy, "
          "no handler mentions credentials) and by whole sessions on all four channels over HTTP/1.1 and HTTP/2, with and without an "
-         "authenticator, against an origin canary (request head seen by the origin, relay in both directions, private policy on/off)",
+         "authenticator, against an origin canary (request head seen by the origin, relay in both directions, private policy on/off); theorem reverse_proxy_request_head_is_well_formed: the request encode_request writes to the origin is read back under the RFC 9112 grammar (Spec/Rfc9112.v) as the client's method, target, version and fields, the authority first as Host (Model/Http1Wire.v, fact on the writers' text, door verif::http1::encode_request against the model and an independent reader)",
     note="partial: the reverse-proxy relay is C02's DuplexPipe; the HTTP/3 reverse-proxy mask is driven through the real QUIC listener for near-miss paths only; known finding "
          "upload-of-zero-bytes-refused; trusted: Coq kernel, Model/Channels.v, translator facts, extraction + driver, door verif::session",
     design="DESIGN.md 5 C18")
